@@ -142,4 +142,13 @@ CLAIMED["C13"] = {"text": "Coq theorems: with a fingerprint configured a request
                  "TLS mechanics (handshake, VerifyConnection ordering): environment.",
          "note": TB + "crypto/tls handshake and x509 validation are the library's; SHA-256 collision resistance assumed.",
          "technique": "Coq proof (iff characterisation, codec round trips, hash output shape) + differential correspondence with in-Coq hashing judged by vm_compute"}
+CLAIMED["C14"] = {"text": "Coq theorem over a transition-system model of CmdShell.Go (child writing to two kernel pipes and exiting, two copiers, close of the "
+                 "output stream only after both copiers saw EOF, reaping afterwards) for EVERY amount of output, chunking, pipe capacity and "
+                 "interleaving: when the stream reports EOF the reader has been handed, per descriptor and in order, exactly what was written; what "
+                 "is handed over is always a prefix of it; the pre-repair protocol (reaper closes the read ends at child exit) is refuted by a "
+                 "witness. PARTIAL: kernel pipes / os/exec / io.Pipe are modelled by contract; the tie is a stress run with real perl children "
+                 "(bursts up to three pipe buffers, early exit, stdout closed before stderr, idle open stdin, readers from 100 B to 64 KiB with pauses) "
+                 "judged in Coq by splitting the stream per descriptor. Timing is real: one-sided.",
+         "note": TB + "os/exec.Cmd.Wait, kernel pipe and io.Pipe semantics are assumptions of the model; liveness (the stream does end) is observed, not proved.",
+         "technique": "Coq proof (invariant over all schedules of a small concurrent model) + stress correspondence with real children judged by vm_compute"}
 NOT_CLAIMED = {}
